@@ -32,7 +32,7 @@ CLASSES = [
     'high_bytes_header', 'high_bytes_payload', 'cmd_letters', 'userids', 'domain_len', 'data_headers', 'login_len',
     'fragsize_N', 'fragsize_big_tun', 'probe_R', 'raw_frames', 'raw_login', 'tun_sizes', 'tun_short', 'upstream_short', 'tun_client_to_client',
     'forwarding', 'reassembly', 'qtypes_longnames', 'timejump_small', 'timejump_big', 'expired_traffic', 'reclaim_V',
-    'stale_raw3', 'pointer_at_len_bind',
+    'stale_raw3', 'raw_uid_bounds', 'pointer_at_len_bind',
 ]
 
 
@@ -1048,6 +1048,23 @@ class C05Gen(srvlib.HistGen):
         self.emit_dgram(g.addr, RAWHDR[:2])
         self.emit_dgram(g.addr, RAWHDR[:1])
 
+    def h_raw_uid_bounds(self):
+        """well-formed raw login / data / ping frames whose user nibble sits on the edge of the created users (last one, first one
+        past them, 15): the three raw handlers each carry their own copy of the range check"""
+        r = self.rng
+        uid = [self.nusers - 1, min(self.nusers, 15), min(self.nusers + 1, 15), 15][self.sw.next('rawuidb', 4)]
+        g = self.guard_of(uid)
+        a = g.addr if g is not None else self.any_addr()
+        seed = g.seed if g is not None else r.randrange(1 << 32)
+        self.emit_dgram(a, RAWHDR + bytes([0x10 | uid]) + login_stub(self.password, (seed + 1) & 0xffffffff))
+        body = bytearray([0x5A]) + bytearray(self.rbytes(40))
+        body[21:25] = r.choice(self.tun_ips[:4] + [0x08080808]).to_bytes(4, 'big')
+        self.emit_dgram(a, RAWHDR + bytes([0x20 | uid]) + bytes(body))
+        self.emit_dgram(a, RAWHDR + bytes([0x30 | uid]))
+        if g is not None and self.alive(g):
+            g.raw = True
+            g.last = self.now
+
     def h_pointer_at_len(self):
         """name = compression pointer to offset len-1 / len / len+1 with different bytes where the type is read"""
         r = self.rng
@@ -1120,7 +1137,7 @@ class C05Gen(srvlib.HistGen):
         ('name_truncated_after', 2), ('high_bytes_header', 8), ('high_bytes_payload', 8), ('cmd_letters', 10), ('userids', 8),
         ('domain_len', 2), ('data_headers', 6), ('login_len', 4), ('fragsize_N', 4), ('fragsize_big_tun', 1), ('probe_R', 4),
         ('raw_frames', 8), ('raw_login', 3), ('tun_sizes', 3), ('tun_short', 2), ('upstream_short', 2), ('tun_client_to_client', 2), ('forwarding', 2),
-        ('qtypes_longnames', 4), ('stock_hostile', 4), ('timejump_small', 0.6), ('timejump_big', 0.8), ('stale_raw3', 1.5),
+        ('qtypes_longnames', 4), ('stock_hostile', 4), ('timejump_small', 0.6), ('timejump_big', 0.8), ('stale_raw3', 1.5), ('raw_uid_bounds', 1.5),
         ('pointer_at_len_bind', 1.5), ('reassembly', 1.0),
     ]
 
@@ -1144,7 +1161,7 @@ class C05Gen(srvlib.HistGen):
             'raw_frames': self.h_raw_frames, 'raw_login': self.h_raw_login, 'tun_sizes': self.h_tun_sizes, 'tun_short': self.h_tun_short, 'upstream_short': self.h_upstream_short,
             'tun_client_to_client': self.h_tun_client_to_client, 'forwarding': self.h_forwarding,
             'qtypes_longnames': self.h_qtypes_longnames, 'stock_hostile': self.h_stock, 'timejump_small': self.h_timejump_small,
-            'timejump_big': self.h_timejump_big, 'stale_raw3': self.h_stale_raw3, 'pointer_at_len_bind': self.h_pointer_at_len,
+            'timejump_big': self.h_timejump_big, 'stale_raw3': self.h_stale_raw3, 'raw_uid_bounds': self.h_raw_uid_bounds, 'pointer_at_len_bind': self.h_pointer_at_len,
             'reassembly': self.h_reassembly,
         }[name]
         if name in ('timejump_small', 'timejump_big'):
